@@ -172,7 +172,14 @@ _n = [0]
 # field i of a generated class is called FIELD_NAMES[i]: declaration order is deliberately
 # neither alphabetical nor reverse-alphabetical (Extras!Name(i) = "f<i>" on the spec side)
 FIELD_NAMES = ['zeta', 'alpha', 'mid', 'beta']
+# ... and every third class uses names that are also parameter names of pretty_call / the printers' own helpers
+RESERVED_NAMES = ['fn', 'ctx', 'args', 'kwargs']
 SPEC_NAME = {n: 'f%d' % (i + 1) for i, n in enumerate(FIELD_NAMES)}
+SPEC_NAME.update({n: 'f%d' % (i + 1) for i, n in enumerate(RESERVED_NAMES)})
+
+
+def field_names():
+    return RESERVED_NAMES if (_n[0] // 2) % 3 == 1 else FIELD_NAMES
 
 
 def materialise(d, lib):
@@ -184,18 +191,27 @@ def materialise(d, lib):
     if lib == 'dc':
         specs = []
         for i, f in enumerate(fields):
-            fname = FIELD_NAMES[i]
+            fname = field_names()[i]
             kw = {'repr': f['repr']}
             if f['dflt'] == 'value':
                 kw['default'] = 0
             elif f['dflt'] == 'factory':
                 kw['default_factory'] = list
             specs.append((fname, object, dataclasses.field(**kw)))
+        pseudo = (_n[0] // 2) % 2 == 0       # every other dataclass (materialise alternates dc / attrs)
+        if pseudo:
+            # pseudo-fields are not fields (dataclasses.fields() leaves them out): a ClassVar whose class-level value
+            # changes after the class was defined, and an InitVar with a default
+            import typing
+            specs.append(('tally', typing.ClassVar[int], 0))
+            specs.append(('seed', dataclasses.InitVar[int], 0))
         cls = dataclasses.make_dataclass(name, specs, frozen=d['frozen'], slots=d['slots'], kw_only=True)
+        if pseudo:
+            cls.tally = 3
     else:
         attrs = {}
         for i, f in enumerate(fields):
-            fname = FIELD_NAMES[i]
+            fname = field_names()[i]
             kw = {'repr': f['repr']}
             if f['dflt'] == 'value':
                 kw['default'] = 0
@@ -206,7 +222,7 @@ def materialise(d, lib):
     cls.__module__ = 'verif_c17gen'
     cls.__qualname__ = name
     for i, f in enumerate(fields):
-        fname = FIELD_NAMES[i]
+        fname = field_names()[i]
         if f['dflt'] == 'none':
             vals[fname] = 7
         elif f['dflt'] == 'value':
@@ -281,6 +297,7 @@ def extras(chk):
             k = dict(c)
             k['id'] = 10 ** 6 + len(can)
             k['names'] = c['names'][1:]
+            k['base'] = c['id']
             can.append(k)
     v, st = common.tlc_batch('Extras', VAL_CFG, cases + can, os.path.join(chk.workdir, 'validate'), tags=('DONE',),
                              min_per_shard=400, heap='2g')
@@ -289,6 +306,10 @@ def extras(chk):
     for k in can:
         if v['DONE'][k['id']][0][2][1]:
             chk.cov['canaries_rejected'] += 1
+        elif v['DONE'][k['base']][0][2][1]:
+            # the observation the canary was derived from is itself rejected (e.g. it shows a name too many):
+            # dropping one name from a wrong list may happen to give the right one - nothing to conclude
+            chk.cov['canaries_total'] -= 1
         else:
             chk.machinery_error('canary accepted (a shown field went missing)')
     nrej = 0
